@@ -146,7 +146,7 @@ def main():
     known = [k for k in load_known() if k['property'] == pid]
     try:
         vres = []
-        rl = 30 if tier == 'quick' else 60
+        rl = 60 if tier == 'quick' else 120
         with cf.ThreadPoolExecutor(max_workers=6) as ex:
             futs = [ex.submit(run_vgroup, g, a.repo, scratch, rl) for g in cfg.get('vgroups', [])]
             kfut = None
